@@ -530,14 +530,22 @@ class World:
 def run_scenario(scn, shadow=True, hooks=None):
     """execute a scenario; hooks: object with after_step(world, step, event) and
     finish(world) -> list of violation dicts"""
-    w = World(scn["config"], shadow=shadow)
-    w.scn = scn
-    for step in scn["steps"]:
-        ev = w.apply(step)
+    import sys
+    saved_byteorder = sys.byteorder
+    if scn["config"].get("big_endian_host"):
+        # platform seam: pure-Python code that consults sys.byteorder sees a big-endian host
+        sys.byteorder = "big"
+    try:
+        w = World(scn["config"], shadow=shadow)
+        w.scn = scn
+        for step in scn["steps"]:
+            ev = w.apply(step)
+            if hooks is not None:
+                hooks.after_step(w, step, ev)
         if hooks is not None:
-            hooks.after_step(w, step, ev)
-    if hooks is not None:
-        hooks.finish(w)
+            hooks.finish(w)
+    finally:
+        sys.byteorder = saved_byteorder
     return w
 
 
